@@ -1,7 +1,7 @@
 #!/usr/bin/env python3
 """Re-runs the property checks against every kept seeded change (detection only).
 
-usage: seeded_recheck.py [--budget N] [--only C07-3,C10-1]   (run several instances with disjoint --only lists to use more cores)
+usage: seeded_recheck.py [--budget N|quota] [--only C07-3,C10-1]   (run several instances with disjoint --only lists to use more cores)
 
 For each /verif/seeded/<prop>-<n>/: scratch copy of /repo's HEAD (outside /repo
 and /verif), apply patch.diff, run the quick check of the property that caught
@@ -58,7 +58,9 @@ def one(sd, budget):
         shutil.rmtree(os.path.join(d, ".git"), ignore_errors=True)
         env = dict(ENV, VERIF_REPO=d, VERIF_EVIDENCE_DIR=os.path.join(d, "_evidence"), VERIF_REPLAY_DIR=os.path.join(d, "_replays"))
         t0 = time.time()
-        p = subprocess.run("./bin/vcheck run -prop %s -budget %s" % (prop, budget), shell=True, cwd="/verif", env=env, stdout=subprocess.PIPE, stderr=subprocess.STDOUT)
+        # budget "quota": the quick tier as registered in MANIFEST.json (fixed quota of runs per leg)
+        cmdline = "./bin/vcheck run -prop %s -tier quick" % prop if budget == "quota" else "./bin/vcheck run -prop %s -budget %s" % (prop, budget)
+        p = subprocess.run(cmdline, shell=True, cwd="/verif", env=env, stdout=subprocess.PIPE, stderr=subprocess.STDOUT)
         out = p.stdout.decode(errors="replace")
         rec["check"] = prop
         rec["exit"] = p.returncode
